@@ -208,7 +208,7 @@ def _ctx_class():
 
 # ---- dr registry hygiene ---------------------------------------------------------------------------
 
-def _unregister(comps, names):
+def _unregister(comps, names, cache_keys):
     from insights.core import dr, filters
     for c in comps:
         for regname in ("DELEGATES", "DEPENDENCIES", "DEPENDENTS", "MODULE_NAMES", "BASE_MODULE_NAMES",
@@ -224,10 +224,15 @@ def _unregister(comps, names):
             dr.COMPONENTS_BY_TYPE[t].discard(c)
         filters._CACHE.pop(c, None)
         filters.FILTERS.pop(c, None)
-    for cache in (dr.COMPONENTS_BY_NAME, dr.COMPONENT_IMPORT_CACHE):
+    for cache, before in zip((dr.COMPONENTS_BY_NAME, dr.COMPONENT_IMPORT_CACHE), cache_keys):
         for k in list(cache):
-            if k in names or (isinstance(k, str) and k.startswith(SYNTH)) or cache[k] in comps:
+            if k not in before or k in names or cache[k] in comps:
                 del cache[k]
+
+
+def _cache_keys():
+    from insights.core import dr
+    return [set(dr.COMPONENTS_BY_NAME), set(dr.COMPONENT_IMPORT_CACHE)]
 
 
 # ---- building one collection -----------------------------------------------------------------------
@@ -468,6 +473,7 @@ def check(case):
     logging.disable(logging.CRITICAL)
     comps, names = [], set()
     labels = set()
+    cache_keys = _cache_keys()
     try:
         # -- the host and the datasources -----------------------------------------------------------
         outputs = {}
@@ -690,7 +696,7 @@ def check(case):
     finally:
         logging.disable(prev_disable)
         try:
-            _unregister(comps, names)
+            _unregister(comps, names, cache_keys)
         finally:
             if prev_mod is None:
                 sys.modules.pop(SYNTH, None)
